@@ -313,6 +313,8 @@ func fillSentinel(v reflect.Value, n *Node) {
 // recording
 
 type Event struct {
+	Addr  uintptr // raw pointer argument (never part of an observation)
+	AType reflect.Type
 	Who   string // "<pos>.test.<code>" | "<pos>.post<i>"
 	Arg   string // canonical rendering of the (dereferenced) argument
 	IsPtr bool   // argument was a pointer
@@ -347,6 +349,10 @@ func (r *Recorder) rec(who string, arg any, ctx z.Ctx) {
 		e.Arg = "nil"
 	} else if rv.Kind() == reflect.Pointer {
 		e.IsPtr = true
+		e.AType = rv.Type()
+		if !rv.IsNil() {
+			e.Addr = rv.Pointer()
+		}
 		if rv.IsNil() {
 			e.Nil = true
 			e.Arg = "nilptr"
